@@ -6,7 +6,7 @@ import json, os, re, subprocess, sys
 V = "/verif"
 WT = "/tmp/wt/eval"
 EXTRA = {"C01-1": ["C04"], "C01-2": ["C13"], "C08-2": ["C02"], "C03-2": ["C13"], "C02-4": ["C08"], "C08-3": ["C12"], "C08-4": ["C09"],
-         "C09-4": ["C08"], "C12-4": ["C02"], "C01-4": ["C04"], "C05-4": ["C04"], "C20-3": ["C11"], "C07-4": ["C09"], "C11-3": ["C20"], "C14-4": ["C17"], "C18-5": ["C10"], "C04-5": ["C11"], "C12-6": ["C10"], "C08-5": ["C10"], "C17-6": ["C14"], "C02-6": ["C04"], "C14-6": ["C11"], "C20-5": ["C04"], "C13-5": ["C11"], "C01-5": ["C05"], "C01-6": ["C04"], "C19-6": ["C08"], "C06-6": ["C09"], "C03-5": ["C15"], "C03-6": ["C13", "C14"], "F11-1": ["C09"], "F15-1": ["C09"], "F16-1": ["C17"], "P03-2": ["C15"], "P04-1": ["C04"], "P06-1": ["C15"], "P06-2": ["C15"], "P07-1": ["C01"], "P08-2": ["C08"], "P11-2": ["C08"], "Q02-2": ["C01"], "Q04-1": ["C14"], "Q04-2": ["C14"], "Q05-2": ["C03"], "Q07-2": ["C06"], "R05-2": ["C06", "C09"], "S05-2": ["C10"]}
+         "C09-4": ["C08"], "C12-4": ["C02"], "C01-4": ["C04"], "C05-4": ["C04"], "C20-3": ["C11"], "C07-4": ["C09"], "C11-3": ["C20"], "C14-4": ["C17"], "C18-5": ["C10"], "C04-5": ["C11"], "C12-6": ["C10"], "C08-5": ["C10"], "C17-6": ["C14"], "C02-6": ["C04"], "C14-6": ["C11"], "C20-5": ["C04"], "C13-5": ["C11"], "C01-5": ["C05"], "C01-6": ["C04"], "C19-6": ["C08"], "C06-6": ["C09"], "C03-5": ["C15"], "C03-6": ["C13", "C14"], "F11-1": ["C09"], "F15-1": ["C09"], "F16-1": ["C17"], "P03-2": ["C15"], "P04-1": ["C04"], "P06-1": ["C15"], "P06-2": ["C15"], "P07-1": ["C01"], "P08-2": ["C08"], "P11-2": ["C08"], "Q02-2": ["C01"], "Q04-1": ["C14"], "Q04-2": ["C14"], "Q05-2": ["C03"], "Q07-2": ["C06"], "R05-2": ["C06", "C09"], "S05-2": ["C10"], "T08-1": ["C20"], "T04-1": ["C01"]}
 args = [a for a in sys.argv[1:] if not a.startswith("--")]
 only_new = "--only-new" in sys.argv
 ids = sorted(d for d in os.listdir(f"{V}/seeded") if os.path.isdir(f"{V}/seeded/{d}"))
